@@ -9,6 +9,8 @@ import (
 	"reflect"
 	"runtime/debug"
 	"sort"
+	"strconv"
+	"strings"
 	"unicode"
 	"unicode/utf8"
 )
@@ -775,6 +777,23 @@ func (c GeneratorContext) addLocalVar(name string) (GeneratorContext, error) {
 	return GeneratorContext{am: newAm, cm: c.cm}, nil
 }
 
+// addPushed returns a context in which n more stack slots are occupied by values a call
+// site has already pushed (a method receiver, earlier arguments). The slots get names no
+// identifier can have, so that a let inside a later argument is compiled to the slot it is
+// pushed to at run time.
+func (c GeneratorContext) addPushed(n int) GeneratorContext {
+	if n <= 0 {
+		return c
+	}
+	newAm := make(argsList, len(c.am), len(c.am)+n)
+	copy(newAm, c.am)
+	for i := 0; i < n; i++ {
+		// a quoted identifier cannot contain a quote
+		newAm = append(newAm, "'"+strconv.Itoa(len(newAm)))
+	}
+	return GeneratorContext{am: newAm, cm: c.cm}
+}
+
 type Func[V any] func(Stack[V]) (V, error)
 
 func (f Func[V]) Eval(args ...V) (V, error) {
@@ -865,7 +884,12 @@ func (g *FunctionGenerator[V]) GenerateFunc(ast parser2.AST, gc GeneratorContext
 					return cs[index], nil
 				}, true, nil
 			} else {
-				avail := append(gc.am, gc.cm...)
+				var avail []string
+				for _, n := range append(append(argsList{}, gc.am...), gc.cm...) {
+					if !strings.HasPrefix(n, "'") {
+						avail = append(avail, n)
+					}
+				}
 				return nil, false, parser2.NewNotFoundError(a.Name, a.Errorf("not found: %s", a.Name)).SetAvail(avail...)
 			}
 		}
@@ -1130,7 +1154,7 @@ func (g *FunctionGenerator[V]) GenerateFunc(ast parser2.AST, gc GeneratorContext
 				if fun.argsNumberNotMatching(len(a.Args)) {
 					return nil, false, id.Error(fun.argsNumberNotMatchingError(id.Name, len(a.Args)))
 				}
-				argsFuncList, pure, err := g.genFuncList(a.Args, gc)
+				argsFuncList, pure, err := g.genArgsList(a.Args, gc, 0)
 				if err != nil {
 					return nil, false, err
 				}
@@ -1150,7 +1174,7 @@ func (g *FunctionGenerator[V]) GenerateFunc(ast parser2.AST, gc GeneratorContext
 		if err != nil {
 			return nil, false, g.generateStaticFunctionDocu(err)
 		}
-		argsFuncList, aPure, err := g.genFuncList(a.Args, gc)
+		argsFuncList, aPure, err := g.genArgsList(a.Args, gc, 0)
 		if err != nil {
 			return nil, false, err
 		}
@@ -1181,7 +1205,8 @@ func (g *FunctionGenerator[V]) GenerateFunc(ast parser2.AST, gc GeneratorContext
 			return nil, false, err
 		}
 		name := a.Name
-		argsFuncList, aPure, err := g.genFuncList(a.Args, gc)
+		// the receiver is pushed before the arguments are evaluated
+		argsFuncList, aPure, err := g.genArgsList(a.Args, gc, 1)
 		if err != nil {
 			return nil, false, err
 		}
@@ -1198,6 +1223,9 @@ func (g *FunctionGenerator[V]) GenerateFunc(ast parser2.AST, gc GeneratorContext
 						if theFunc.argsNumberNotMatching(len(argsFuncList)) {
 							return zero, a.Error(theFunc.argsNumberNotMatchingError(name, len(argsFuncList)))
 						}
+						// keep the stack layout the arguments are compiled for (see method call below);
+						// the map is not part of the frame handed to the closure
+						st.Push(value)
 						for _, argFunc := range argsFuncList {
 							v, err := argFunc(st, cs)
 							if err != nil {
@@ -1294,6 +1322,24 @@ func (g *FunctionGenerator[V]) genFuncList(a []parser2.AST, gc GeneratorContext)
 		var err error
 		var p bool
 		args[i], p, err = g.GenerateFunc(arg, gc)
+		if err != nil {
+			return nil, false, err
+		}
+		pure = pure && p
+	}
+	return args, pure, nil
+}
+
+// genArgsList generates the code for the arguments of a call. The call site pushes each
+// evaluated argument to the stack before it evaluates the next one, so argument i is compiled
+// with pushedBefore+i additional occupied stack slots.
+func (g *FunctionGenerator[V]) genArgsList(a []parser2.AST, gc GeneratorContext, pushedBefore int) ([]ParserFunc[V], bool, error) {
+	args := make([]ParserFunc[V], len(a))
+	pure := true
+	for i, arg := range a {
+		var err error
+		var p bool
+		args[i], p, err = g.GenerateFunc(arg, gc.addPushed(pushedBefore+i))
 		if err != nil {
 			return nil, false, err
 		}
